@@ -167,5 +167,5 @@ def run(tier: str) -> int:
                        "tokenizer level, pairs of texts that differ only in where token boundaries fall)"]
     random.Random(seed()).shuffle(items)
     items.sort(key=lambda it: -it[0])
-    collect(rep, pmap(worker, items, budget_s=400 if tier == "quick" else 2400, chunk=4))
+    collect(rep, pmap(worker, items, budget_s=400 if tier == "quick" else 720, chunk=4))
     return rep.finish(required_reach=[f"H{h}" for h in range(1, Hmax + 1)] + [f"H{3 if tier == 'quick' else 5}"])
